@@ -98,7 +98,7 @@ func zzSameRecs(a, b []zzRec) bool {
 // VerifC07_BoltV2Cut: delivering a byte stream in two chunks yields the same
 // frames as delivering it whole; an incomplete frame consumes nothing.
 func VerifC07_BoltV2Cut() {
-	n := verif.Len("n", 0, verif.Param("N", 28, 30))
+	n := verif.Len("n", 0, verif.Param("N", 26, 30))
 	s := verif.Bytes("s", n)
 	if n > 0 {
 		verif.Assume(s[0] != 0x01)
